@@ -143,6 +143,7 @@ var (
 func ResetRecorder() {
 	recMu.Lock()
 	rec = map[string][]string{}
+	wrote = map[string][]string{}
 	recMu.Unlock()
 }
 
@@ -151,6 +152,23 @@ func record(tx *types.Transaction, s string) {
 	recMu.Lock()
 	rec[k] = append(rec[k], s)
 	recMu.Unlock()
+}
+
+var wrote = map[string][]string{}
+
+func recordWrite(tx *types.Transaction, key []byte) {
+	k := string(tx.Hash())
+	recMu.Lock()
+	wrote[k] = append(wrote[k], string(key))
+	recMu.Unlock()
+}
+
+// Writes returns the keys the synthetic driver itself passed to StateDB.Set while executing tx (its own
+// record, independent of the key tracking inside StateDB).
+func Writes(tx *types.Transaction) []string {
+	recMu.Lock()
+	defer recMu.Unlock()
+	return append([]string(nil), wrote[string(tx.Hash())]...)
 }
 
 // Observations returns what the program of tx observed, in order.
@@ -285,6 +303,8 @@ func (d *vfDriver) Exec(tx *types.Transaction, index int) (*types.Receipt, error
 		case "S", "H":
 			if err := sdb.Set(o.K, o.V); err != nil {
 				record(tx, errName(err))
+			} else {
+				recordWrite(tx, o.K)
 			}
 			if o.Kind == "S" {
 				r.KV = append(r.KV, &types.KeyValue{Key: o.K, Value: o.V})
